@@ -381,11 +381,16 @@ def judge(ctx, module, cfg, pairs, signature_of, prefix=None, shards=NCPU, timeo
     traces.append(tr)
   verdicts = ctx.validate(module, cfg, traces, shards=shards, timeout=timeout, tag=tag)
   nviol = 0
+  import inspect
+  nargs = len(inspect.signature(signature_of).parameters)
   for (recipe, _), tr in zip(pairs, traces):
     fails, ex = verdicts[tr['tid']]
-    for c in sorted(fails):
+    for cfull in sorted(fails):
+      c, _, pos = cfull.partition('@')
+      pos = int(pos) if pos else 0
       if c.startswith(prefix) or c.startswith('TRACE.'):
-        ctx.add_violation(c, signature_of(recipe, tr, c), tr, recipe)
+        sig = signature_of(recipe, tr, c, pos) if nargs >= 4 else signature_of(recipe, tr, c)
+        ctx.add_violation(c, sig, tr, dict(recipe, failing_event=pos))
         nviol += 1
   return verdicts, nviol
 
@@ -407,7 +412,7 @@ def standard_replay(modname, pid, module, cfg, path, frozen, signature_of=None):
   tr = dict(tr)
   tr['tid'] = 1
   verdicts, _ = validate_traces(module, cfg, [tr], work, shards=1)
-  fails = sorted(c for c in verdicts[1][0] if c.startswith(pid + '.') or c.startswith('TRACE.'))
+  fails = sorted({c.partition('@')[0] for c in verdicts[1][0] if c.startswith(pid + '.') or c.startswith('TRACE.')})
   shutil.rmtree(work, ignore_errors=True)
   if fails:
     print('VIOLATION property=%s replay=%s' % (pid, path))
